@@ -251,6 +251,28 @@ BadRun(t, i) == IF i > Len(t) THEN FALSE
                 ELSE IF IsPctAt(t, i) THEN (LET n == Utf8Len(EscRun(t, i, 4)) IN IF n = 0 THEN TRUE ELSE BadRun(t, i + 3 * n))
                 ELSE BadRun(t, i + 1)
 ParseQsl(query) == IF BadRun(query, 1) THEN GRAY ELSE OK(QueryPairs(query))
+\* ... and what parse_qsl actually returns for such runs (urllib.parse.unquote(errors="replace")): the ASCII chunk is turned
+\* into bytes (escapes decoded, literals as themselves) and decoded as UTF-8 where every maximal ill-formed subsequence
+\* becomes ONE U+FFFD.  Used only to attribute C06.query rejections to Dev_QueryDecodeReplaces exactly.
+RECURSIVE ToBytes(_, _)
+ToBytes(t, i) == IF i > Len(t) THEN <<>>
+                 ELSE IF IsPctAt(t, i) THEN <<PctByte(t, i)>> \o ToBytes(t, i + 3)
+                 ELSE <<IF t[i] >= 128 THEN 1000000 + t[i] ELSE t[i]>> \o ToBytes(t, i + 1)   \* literal non-ASCII: tagged, ends a chunk
+RECURSIVE DecodeReplace(_, _)
+DecodeReplace(bs, i) ==
+  IF i > Len(bs) THEN <<>>
+  ELSE IF bs[i] >= 1000000 THEN <<bs[i] - 1000000>> \o DecodeReplace(bs, i + 1)   \* a literal non-ASCII character
+  ELSE LET rest == SubSeq(bs, i, Min2(Len(bs), i + 3))
+           clean == LET j == CHOOSE j \in 0..Len(rest) : (j = Len(rest) \/ rest[j + 1] >= 1000000) /\ \A k \in 1..j : rest[k] < 1000000 IN SubSeq(rest, 1, j)
+           n == Utf8Len(clean) IN
+       IF n > 0 THEN <<Utf8Scalar(clean, n)>> \o DecodeReplace(bs, i + n)
+       ELSE LET ks == {j \in 1..Len(clean) : Utf8Status(SubSeq(clean, 1, j)) = "partial"}
+                k == IF ks = {} THEN 1 ELSE CHOOSE j \in ks : \A j2 \in ks : j2 <= j IN
+            <<65533>> \o DecodeReplace(bs, i + k)
+UnquoteReplace(t) == DecodeReplace(ToBytes([i \in 1..Len(t) |-> IF t[i] = PLUS THEN SPACE ELSE t[i]], 1), 1)
+QueryPairsReplace(raw) ==
+  LET pieces == SelectSeq(Split(raw, AMP), LAMBDA p : p # <<>>) IN
+  [i \in 1..Len(pieces) |-> LET pr == Partition(pieces[i], EQ) IN <<UnquoteReplace(pr[1]), UnquoteReplace(pr[3])>>]
 StrTv(t) == [t |-> "str", s |-> t]
 UpdateQuery(be, u, q) ==
   IF q.form = "kwargs" /\ q.pairs = <<>> THEN EXC("ValueError")
